@@ -206,6 +206,11 @@ func c20Run(x *engine.X) {
 	if len(hist) > 0 {
 		x.Nontrivial(x.Describe())
 	}
+	// model-checking evidence: a state is (codec, pool policy, history prefix), a transition is one codec call
+	for i := 0; i <= len(hist); i++ {
+		x.State(fmt.Sprintf("%s|%s|%v", cc.name, policy, hist[:i]))
+	}
+	x.CountN("transitions", int64(len(hist)))
 	// probes
 	for i, in := range c20Inputs {
 		enc, err := codec.Encode(nil, in)
@@ -216,6 +221,7 @@ func c20Run(x *engine.X) {
 		enc = append([]byte(nil), enc...)
 		for dk := 0; dk <= 5; dk++ {
 			x.AddEvals(1)
+			x.CountN("transitions", 1)
 			dst := c20Dst(dk, len(in), prev)
 			r := c20Call(func() ([]byte, error) { return codec.Decode(dst, enc) })
 			if r.timedOut || r.panicked != nil || r.err != nil || !bytes.Equal(r.out, in) {
